@@ -278,6 +278,8 @@ func c34History(r *Rec, prop string, h int, nBlocks int) {
 	var basketID uint64
 	dapps := []string{}
 	staleAt, staleStage, staleReq := 2+r.Rng.Intn(6), 0, uint64(0)
+	undAt := 4 + r.Rng.Intn(8)
+	forceWeek := false
 	capAt := 3 + r.Rng.Intn(8)
 	reimpAt := -1
 	if h%3 == 1 {
@@ -304,6 +306,7 @@ func c34History(r *Rec, prop string, h int, nBlocks int) {
 				basketID = app.BasketKeeper.GetLastBasketId(ctx)
 				np := *app.CustomGovKeeper.GetNetworkProperties(ctx)
 				np.AutocompoundIntervalNumBlocks = 2
+				np.UnstakingPeriod = 604800 // a week: the eight-day jumps of the history take undelegations past their expiry
 				app.CustomGovKeeper.SetNetworkProperties(ctx, &np)
 				// two user-created spending pools sharing the one module account: 1 ukex per second to accounts 0,1 / 2,3
 				for pi, pn := range []string{"poola", "poolb"} {
@@ -405,6 +408,39 @@ func c34History(r *Rec, prop string, h int, nBlocks int) {
 					_, err := e.gs.RequestIdentityRecordsVerify(sdk.WrapSDKContext(ctx), govtypes.NewMsgRequestIdentityRecordsVerify(A[who], A[ver], []uint64{recs[0].Id}, sdk.NewInt64Coin("ukex", int64(250+j))))
 					return err
 				}})
+			}
+		}
+		// a fifth scripted strand (every third history): two accounts undelegate one after the other; a week later the FIRST
+		// claims its matured undelegations while the second one's record - the newest in the store - is still there.
+		// Only the claimant's own matured records may be paid, and nobody else's record may disappear.
+		if h%3 == 0 && b >= undAt && b <= undAt+3 {
+			del := func(who int) c34Op {
+				return c34Op{"delegate", who, func(ctx sdk.Context) error {
+					_, err := e.ms.Delegate(sdk.WrapSDKContext(ctx), &mstypes.MsgDelegate{DelegatorAddress: A[who].String(), ValidatorAddress: sdk.ValAddress(A[1]).String(), Amounts: ukex(int64(400000 + 1000*who))})
+					return err
+				}}
+			}
+			und := func(who int, amt int64) c34Op {
+				return c34Op{"undelegate", who, func(ctx sdk.Context) error {
+					_, err := e.ms.Undelegate(sdk.WrapSDKContext(ctx), &mstypes.MsgUndelegate{DelegatorAddress: A[who].String(), ValidatorAddress: sdk.ValAddress(A[1]).String(), Amounts: ukex(amt)})
+					return err
+				}}
+			}
+			claim := func(who int) c34Op {
+				return c34Op{"claim-matured", who, func(ctx sdk.Context) error {
+					_, err := e.ms.ClaimMaturedUndelegations(sdk.WrapSDKContext(ctx), &mstypes.MsgClaimMaturedUndelegations{Sender: A[who].String()})
+					return err
+				}}
+			}
+			switch b - undAt {
+			case 0:
+				ops = append(ops, del(3), del(4))
+			case 1:
+				ops = append(ops, und(3, 1111), und(4, 2222))
+			case 2:
+				forceWeek = true // this block ends more than a week after the undelegations
+			case 3:
+				ops = append(ops, und(4, 3333), claim(3), claim(4))
 			}
 		}
 		// a fourth scripted strand (every fourth history): the staking settings of the token registry change while stakes
@@ -862,8 +898,9 @@ func c34History(r *Rec, prop string, h int, nBlocks int) {
 			}
 		}
 		dt := time.Duration(3+r.Rng.Intn(8)) * time.Second
-		if r.Rng.Intn(4) == 0 {
+		if r.Rng.Intn(4) == 0 || forceWeek {
 			dt = time.Duration(86400*8) * time.Second // past the unstaking period
+			forceWeek = false
 		}
 		var usersBefore []sdk.Coins
 		br := w.Block(nil, BlockOpts{Dt: dt, Mid: func(ctx sdk.Context) {
